@@ -16,6 +16,10 @@ func phaseOn(name string) bool { return *onlyPhase == "" || *onlyPhase == name }
 // runWorker explores the whole space of one dialect.
 func runWorker(r *ev.Run, col *sqlgen.Collector) {
 	d := sqlgen.Current
+	if *onlyPhase == "obsdemo" {
+		obsDemo()
+		return
+	}
 	seeds := sqlgen.ExtractSeeds()
 	col.Info("seed_literals_extracted", len(seeds))
 
